@@ -14,9 +14,11 @@ fn big(v: &Value) -> BigInt {
 fn shown(r: Result<FixedDecimal, mc_core::panics::PanicInfo>) -> String {
     match r {
         Err(p) => format!("PANIC {} at {}", p.message, p.location),
-        Ok(d) => match raw_of(&d) {
-            Ok(raw) => format!("{} (precision {})", fx::show(&raw, d.precision() as u32), d.precision()),
-            Err(e) => format!("{d:?} [{e}]"),
+        Ok(d) => match catch(|| raw_of(&d)) {
+            Ok(Ok(raw)) if d.precision() == 34 => format!("{} (precision 34)", fx::short(&raw)),
+            Ok(Ok(raw)) => format!("{} (precision {})", fx::show(&raw, d.precision() as u32), d.precision()),
+            Ok(Err(e)) => format!("<unreadable: {e}>"),
+            Err(p) => format!("<to_string PANIC {} at {}>", p.message, p.location),
         },
     }
 }
